@@ -214,7 +214,13 @@ func genKids(r *rand.Rand, streamNS string, depth int) []any {
 				if r.Intn(2) == 0 {
 					inner.Attrs = append(inner.Attrs, xml.Attr{Name: xml.Name{Local: "id"}, Value: ""})
 				}
-				if r.Intn(3) == 0 {
+				if r.Intn(4) == 0 {
+					// a stanza-named child with no namespace of its own below an
+					// element of another namespace: it inherits that namespace (the
+					// encoder cannot write it otherwise) and is nobody's stanza
+					inner.Name.Space = ""
+					kids = append(kids, &elem{Name: xml.Name{Space: nsExt, Local: "wrap"}, Kids: []any{inner, &elem{Name: xml.Name{Local: []string{"iq", "message", "presence"}[r.Intn(3)]}}}})
+				} else if r.Intn(3) == 0 {
 					kids = append(kids, inner) // stanza-named child directly below the top-level element
 				} else {
 					kids = append(kids, &elem{Name: xml.Name{Space: "urn:xmpp:forward:0", Local: "forwarded"}, Kids: []any{inner}})
